@@ -115,6 +115,7 @@ type Exec struct {
 	loopAssume    int
 	loopAssumeFn  string
 	localMerge    map[string]bool
+	localSumm     map[string]bool
 	linked        map[int]bool
 	noMerge       bool
 	formattedBasketDenoms []*smt.Term
